@@ -154,6 +154,10 @@ pub fn guarded<T>(f: impl FnOnce() -> T) -> Result<T, String> {
 }
 
 pub fn quiet_panics() {
+    // VERIF_LOUD=1: keep the default hook (panic messages with their location), for looking at a replay by hand
+    if std::env::var("VERIF_LOUD").is_ok() {
+        return;
+    }
     panic::set_hook(Box::new(|_| {}));
 }
 
